@@ -20,19 +20,30 @@ Proof.
   intros r H. destruct r as [|a [|b [|c [|d r]]]]; cbn [length] in H; try lia. reflexivity.
 Qed.
 
-(* the offsets loop: the translated fold is the model's read_offsets on what is left of the cursor *)
-Lemma km_offsets_loop : forall (blen : N) (l : list N) d p offs0,
-  fold_res (fun '(m, offsets) (_ : N) =>
+(* two loop bodies that agree on every state and element give the same fold (no extensionality axiom) *)
+Lemma km_fold_ext : forall {S A} (F G : S -> A -> res S), (forall s x, F s x = G s x) ->
+  forall l s, fold_res F l s = fold_res G l s.
+Proof.
+  intros S A F G HFG. induction l as [|x l IH]; intros s; cbn [fold_res]; [reflexivity|].
+  rewrite HFG. destruct (G s x) as [s'| |]; cbn [obind]; [apply IH|reflexivity|reflexivity].
+Qed.
+
+Definition offsets_body (blen : N) : cursor * list N -> N -> res (cursor * list N) :=
+  fun '(m, offsets) (_ : N) =>
       obind (cur_read_u32 m) (fun '(offset, m') =>
       obind (if negb (offset mod 4 =? 0) then Err (InvalidAlignment offset)
              else if blen <? offset then Err (InvalidOffsetValue offset) else Ok tt) (fun _ =>
-      Ok (m', offsets ++ [offset])))) l ((d, p), offs0)
+      Ok (m', offsets ++ [offset]))).
+
+(* the offsets loop: the translated fold is the model's read_offsets on what is left of the cursor *)
+Lemma km_offsets_loop : forall (blen : N) (l : list N) d p offs0,
+  fold_res (offsets_body blen) l ((d, p), offs0)
   = obind (read_offsets (length l) (cur_rest (d, p)) blen) (fun '(os, _) =>
       Ok ((d, p + 4 * N.of_nat (length l)), offs0 ++ os)).
 Proof.
   induction l as [|x l IH]; intros d p offs0.
   - cbn [fold_res length read_offsets obind]. rewrite app_nil_r. do 3 f_equal. lia.
-  - cbn [fold_res length read_offsets]. unfold cur_read_u32 at 1. cbn [fst snd].
+  - cbn [fold_res length read_offsets]. unfold offsets_body at 1. unfold cur_read_u32 at 1. cbn [fst snd].
     destruct (cur_rest (d, p)) as [|a [|b [|c [|e rest]]]] eqn:Er; try reflexivity.
     replace (length (a :: b :: c :: e :: rest) <? 4)%nat with false by (cbn [length]; lia).
     cbn [obind]. rewrite (rd32_4 a b c e rest).
@@ -47,10 +58,8 @@ Qed.
 Lemma km_last_snoc : forall {A} (l : list A) x, last_opt (l ++ [x]) = Some x.
 Proof. intros. unfold last_opt. rewrite rev_app_distr. reflexivity. Qed.
 
-(* the tags loop *)
-Lemma km_tags_loop : forall (l : list N) d p (buf0 : bytes) ts0,
-  omap (fun '(_, m, ts) => (m, ts))
-    (fold_res (fun '(buf, m, tags) (_ : N) =>
+Definition tags_body : bytes * cursor * list tag -> N -> res (bytes * cursor * list tag) :=
+  fun '(buf, m, tags) (_ : N) =>
       obind (match cur_read_exact m 4 with
              | None => Err MessageTooShort
              | Some (buf', m') => Ok (buf', m') end) (fun '(buf', m') =>
@@ -58,13 +67,18 @@ Lemma km_tags_loop : forall (l : list N) d p (buf0 : bytes) ts0,
       obind (match last_opt tags with
              | Some lt => obind (if tag_le tg lt then Err (TagNotStrictlyIncreasing tg) else Ok tt) (fun _ => Ok tt)
              | _ => Ok tt end) (fun _ =>
-      Ok (buf', m', tags ++ [tg]))))) l (buf0, (d, p), ts0))
+      Ok (buf', m', tags ++ [tg])))).
+
+(* the tags loop *)
+Lemma km_tags_loop : forall (l : list N) d p (buf0 : bytes) ts0,
+  omap (fun '(_, m, ts) => (m, ts))
+    (fold_res tags_body l (buf0, (d, p), ts0))
   = obind (read_tags (length l) (cur_rest (d, p)) (last_opt ts0)) (fun '(ts, _) =>
       Ok ((d, p + 4 * N.of_nat (length l)), ts0 ++ ts)).
 Proof.
   induction l as [|x l IH]; intros d p buf0 ts0.
   - cbn [fold_res length read_tags obind omap]. rewrite app_nil_r. do 3 f_equal. lia.
-  - cbn [fold_res length read_tags]. unfold cur_read_exact at 1. cbn [fst snd].
+  - cbn [fold_res length read_tags]. unfold tags_body at 1. unfold cur_read_exact at 1. cbn [fst snd].
     destruct (cur_rest (d, p)) as [|a [|b [|c [|e rest]]]] eqn:Er; try reflexivity.
     replace (length (a :: b :: c :: e :: rest) <? 4)%nat with false by (cbn [length]; lia).
     cbn [obind firstn]. unfold tag_from_wire_r at 1.
@@ -87,20 +101,23 @@ Lemma km_slice_site : forall s1 s2 (bs : bytes) a b, (a <= b)%nat -> (b <= lengt
   slice (E:=error) s1 bs a b = slice s2 bs a b.
 Proof. intros. rewrite !slice_ok by assumption. reflexivity. Qed.
 
-Lemma km_values_loop : forall (bs : bytes) (he : N) ts ss es acc,
-  fold_res (fun (rt : msg) (x_it : tag * (N * N)) =>
+Definition values_body (bs : bytes) (he : N) : msg -> tag * (N * N) -> res msg :=
+  fun (rt : msg) (x_it : tag * (N * N)) =>
       let '(tg, (vs, ve)) := x_it in
       obind (if (lenN bs <? he + ve) || (he + ve <? he + vs)
              then Err (InvalidValueLength tg (as_u32 (he + ve))) else Ok tt) (fun _ =>
       obind (slice_n site_gen bs (he + vs) (he + ve)) (fun s =>
-      obind (add_field rt tg s) (fun rt' => Ok rt'))))
+      obind (add_field rt tg s) (fun rt' => Ok rt'))).
+
+Lemma km_values_loop : forall (bs : bytes) (he : N) ts ss es acc,
+  fold_res (values_body bs he)
     (combine ts (combine ss es)) acc
   = read_values bs (N.to_nat he) ts (map N.to_nat ss) (map N.to_nat es) acc.
 Proof.
   intros bs he ts. induction ts as [|t ts IH]; intros ss es acc.
   - reflexivity.
   - destruct ss as [|s ss]; [reflexivity|]. destruct es as [|e es]; [reflexivity|].
-    cbn [combine fold_res map read_values].
+    cbn [combine fold_res map read_values]. unfold values_body at 1.
     replace ((lenN bs <? he + e) || (he + e <? he + s))
       with ((length bs <? N.to_nat he + N.to_nat e)%nat || (N.to_nat he + N.to_nat e <? N.to_nat he + N.to_nat s)%nat)
       by (unfold lenN; lia).
@@ -115,6 +132,26 @@ Proof.
       apply IH.
 Qed.
 
+(* the body of a translated loop equals the reference body: by computation when the source has today's
+   shape, otherwise by splitting on every scrutinee until both sides are the same value (this absorbs
+   rewrites such as a check moved into a private helper) *)
+Ltac km_body_eq :=
+  intros;
+  first
+    [ reflexivity
+    | repeat match goal with p : (_ * _)%type |- _ => destruct p end;
+      cbv beta delta [obind offsets_body tags_body values_body] iota;
+      repeat (cbv beta iota;
+              match goal with
+              | |- context [match ?x with _ => _ end] =>
+                  (* innermost scrutinee first: an atom shared by both sides *)
+                  lazymatch x with
+                  | context [match _ with _ => _ end] => fail
+                  | _ => destruct x eqn:?
+                  end
+              end);
+      reflexivity ].
+
 Lemma km_range_length : forall a b, length (range_n a b) = N.to_nat (b - a).
 Proof. intros. unfold range_n. rewrite map_length, seq_length. reflexivity. Qed.
 
@@ -123,6 +160,8 @@ Lemma gen_multi_tag_model : forall num_tags bs, 2 <= num_tags ->
 Proof.
   intros num_tags bs Hn. unfold gen_multi_tag_message, multi_tag_message, sub_chk.
   replace (num_tags <? 1) with false by lia. cbn [obind]. cbv zeta.
+  match goal with |- context [fold_res ?F (range_n 0 _) ((bs, 4), [])] =>
+    rewrite (km_fold_ext F (offsets_body (as_u32 (lenN bs))) ltac:(km_body_eq)) end.
   rewrite km_offsets_loop. rewrite km_range_length.
   replace (N.to_nat (num_tags - 1 - 0)) with (N.to_nat num_tags - 1)%nat by lia.
   change (cur_rest (bs, 4)) with (skipn 4 bs).
@@ -131,6 +170,8 @@ Proof.
     cbn [obind]; [|reflexivity|reflexivity].
   destruct Ho as ((Hlo & _ & _) & _ & Hcur1). cbn [app].
   (* the tags loop *)
+  match goal with |- context [fold_res ?F (range_n 0 _) (_, _, [])] =>
+    rewrite (km_fold_ext F tags_body ltac:(km_body_eq)) end.
   match goal with |- obind ?X ?K = _ =>
     transitivity (obind (omap (fun '(_, m, ts) => (m, ts)) X) (fun '(m, ts) => K (repeat_byte x00 4, m, ts)))
   end.
@@ -151,6 +192,8 @@ Proof.
   set (he := 4 + 4 * N.of_nat (N.to_nat num_tags - 1) + 4 * N.of_nat (N.to_nat num_tags)).
   assert (Hhe : N.to_nat he = (length bs - length cur2)%nat) by (subst he; lia).
   replace (lenN bs <? he) with false by (unfold lenN; lia). cbn [obind].
+  match goal with |- context [fold_res ?F (combine _ _) []] =>
+    rewrite (km_fold_ext F (values_body bs he) ltac:(km_body_eq)) end.
   rewrite km_values_loop. rewrite Hhe. cbn [map]. rewrite map_app. cbn [map].
   change (N.to_nat 0) with 0%nat.
   replace (N.to_nat (lenN bs - he)) with (length bs - (length bs - length cur2))%nat by (unfold lenN; lia).
